@@ -5,6 +5,9 @@ import sys
 
 pid = sys.argv[1]
 first = int(sys.argv[2]) if len(sys.argv) > 2 else 1   # number of the first change (second round: 4)
+count = int(sys.argv[3]) if len(sys.argv) > 3 else 3
+WORDS = {1: 'ONE', 2: 'TWO', 3: 'THREE'}
+ks = ', '.join(str(first + i) for i in range(count))
 wt = f'/tmp/wt_{pid}'
 prop = next(json.loads(l) for l in open('/verif/properties.jsonl') if json.loads(l)['id'] == pid)
 print(f"""You are helping to evaluate a verification effort by playing the adversary. You work ONLY inside the scratch git worktree
@@ -26,13 +29,13 @@ The property under attack (id {pid}): "{prop['title']}"
   Quantified over: {prop['quantifier']['text']}
   Code anchors: {', '.join(prop['anchors']['files'])}
 
-Your task: produce THREE different, realistic source changes (the kind of bug a maintainer could plausibly introduce in a refactor or
+Your task: produce {WORDS[count]} different, realistic source changes (the kind of bug a maintainer could plausibly introduce in a refactor or
 feature change), each of which makes the property FALSE for some input/configuration/history while the code still imports, runs and passes
 the existing test suite as described above. Prefer changes that need something specific to manifest — a particular end-use option, an
 unusual but valid input, a particular branch/configuration, a multi-step sequence, two cooperating sites that each look fine alone — over
-changes that every ordinary run would expose at once. Vary the mechanisms and the code sites across the three.
+changes that every ordinary run would expose at once. Vary the mechanisms and the code sites across them.
 
-For each change k = {first}, {first + 1}, {first + 2}:
+For each change k = {ks}:
   1. make the edit in {wt}, run the test suite, confirm the 149 still pass;
   2. write /tmp/seeds/{pid}_k/patch.diff  (output of `git -C {wt} diff`), 
      /tmp/seeds/{pid}_k/demo.py — a small self-contained program that exits 0 when the property holds and exits 1 (printing what it saw)
@@ -44,6 +47,9 @@ For each change k = {first}, {first + 1}, {first + 2}:
 Never use `git stash` (the stash is shared between worktrees; other people work in sibling worktrees): save with `git diff > file`, restore with
 `git checkout -- .`, re-apply with `git apply`. Earlier rounds already produced obvious changes (a wrong constant, a dropped term, a swapped
 argument that every ordinary run exposes); this round should aim for changes whose effect is confined to an unusual but valid corner:
-a particular combination of options, a boundary value, a rarely used branch, an interaction between two modules, state carried between runs.
-Finish with the worktree restored to its clean state and reply with a short summary of the three changes (one paragraph each)."""
+a particular combination of options, a boundary value, a rarely used branch (SUTRA / AGS / absorption chiller / heat pump / district heating / S-DAC-GT / add-ons /
+HIP-RA-X / Monte Carlo where relevant), an interaction between two modules, state carried between runs of one process, a dependence on dictionary / set order,
+a numeric corner (zero, exact equality with a threshold, very large or very small magnitudes, a lifetime of 1 year or of 100 years).
+Budget about 40 minutes in total; deliver each change as soon as it is confirmed.
+Finish with the worktree restored to its clean state and reply with a short summary of the changes (one paragraph each)."""
 )
